@@ -1,6 +1,7 @@
 #!/usr/bin/env python3
 """Confirm a seeded change delivered by a sub-agent (/tmp/wt/<ID>.out/<n>/) independently and, if confirmed, keep it as
-/verif/seeded/<ID>-<n>/ (patch.diff, demo.py, meta.json with what was run).  usage: intake_seeded.py <ID> [<ID> ...]"""
+/verif/seeded/<ID>-<n>/ (patch.diff, demo.py, meta.json with what was run).
+usage: intake_seeded.py [--base /tmp/wt2 --offset 3] <ID> [<ID> ...]   (offset is added to <n>: second-round changes are 4..6)"""
 import json
 import os
 import shutil
@@ -18,8 +19,17 @@ def sh(cmd, cwd=None, env=None):
     return p.returncode, p.stdout
 
 
-for pid in sys.argv[1:]:
-    out = "/tmp/wt/%s.out" % pid
+ARGS = sys.argv[1:]
+BASEDIR, OFFSET = "/tmp/wt", 0
+if "--base" in ARGS:
+    BASEDIR = ARGS[ARGS.index("--base") + 1]
+    del ARGS[ARGS.index("--base"):ARGS.index("--base") + 2]
+if "--offset" in ARGS:
+    OFFSET = int(ARGS[ARGS.index("--offset") + 1])
+    del ARGS[ARGS.index("--offset"):ARGS.index("--offset") + 2]
+
+for pid in ARGS:
+    out = "%s/%s.out" % (BASEDIR, pid)
     if not os.path.isdir(out):
         print(pid, "no output dir")
         continue
@@ -43,7 +53,7 @@ for pid in sys.argv[1:]:
             ok = rc0 == 0 and rc1 == 1 and BASE in tail and "1 error" in tail
             print(pid, n, "CONFIRMED" if ok else "REJECT", "demo unpatched=%d patched=%d tests=[%s]" % (rc0, rc1, tail))
             if ok:
-                dst = os.path.join(os.path.dirname(os.path.dirname(os.path.abspath(__file__))), "seeded", "%s-%s" % (pid, n))
+                dst = os.path.join(os.path.dirname(os.path.dirname(os.path.abspath(__file__))), "seeded", "%s-%d" % (pid, int(n) + OFFSET))
                 os.makedirs(dst, exist_ok=True)
                 for f in ("patch.diff", "demo.py"):
                     shutil.copy(os.path.join(d, f), os.path.join(dst, f))
